@@ -9,7 +9,7 @@ PID = "C01"
 LEVEL = "proof"
 COQ_TARGETS = ["Props/C01.vo", "Props/C01_invcdf.vo", "Props/C01_fp.vo", "Props/C01_identities.vo"]
 PROPS_FILES = ["C01", "C01_invcdf", "C01_fp", "C01_identities"]
-THEOREMS = ["C01_mt_identity", "C01_mt_envelope", "C01_mt_squeeze", "C01_bb_exact_test", "C01_bc_exact_test", "C01_ig_roots_solve", "C01_skew_repr", "C01_fingerprints", "C01_evalI_sound", "C01_weibull_event", "C01_pareto_event", "C01_gumbel_event", "C01_frechet_event",
+THEOREMS = ["C01_gamma_boost_event", "C01_gamma_boost_kernel", "C01_gamma_boost_kernel_limit", "C01_mt_identity", "C01_mt_envelope", "C01_mt_squeeze", "C01_bb_exact_test", "C01_bc_exact_test", "C01_ig_roots_solve", "C01_skew_repr", "C01_fingerprints", "C01_evalI_sound", "C01_weibull_event", "C01_pareto_event", "C01_gumbel_event", "C01_frechet_event",
             "C01_cauchy_event", "C01_triangular_event", "C01_weibull_value", "C01_cauchy_run", "C01_triangular_run"]
 TRUSTED_BASE = [
     "Coq 8.16.1 kernel + vm_compute; Coq-Interval 4.6.1 operations (I.exp, I.ln, …) with their containment theorems, "
@@ -80,9 +80,17 @@ def run_cases(ctx, cases, tag):
         model = S.coq_model(fam, ty, [S.f_bits(ty, x) for x in vals])
         if model is None:
             continue
-        coq_cases.append("ccase %s %s %s %s %s %d" % (S.coq_ty(ty), model, zlist(words[:max(cnt + 6, 12)]), zlit(d[0]), zlit(d[1]), cnt))
+        coq_cases.append("ccaseS %s %s %s %s %s %d" % (S.coq_ty(ty), model, zlist(words[:max(cnt + 6, 12)]), zlit(d[0]), zlit(d[1]), cnt))
         idx.append(n)
-    codes = coq_eval_codes(tag, HEADER, coq_cases, shard=150 if ctx["tier"] == "quick" else 400)
+    raw = coq_eval_codes(tag, HEADER, coq_cases, shard=150 if ctx["tier"] == "quick" else 400)
+    # ccaseS = verdict + 4 * (signature of the decisions on the reproducing path): the signatures measure which paths of the
+    # model the correspondence exercised (evidence: distinct_model_paths per family)
+    codes = [r % 4 for r in raw]
+    paths = {}
+    for n, r in zip(idx, raw):
+        if r % 4 == 0:
+            paths.setdefault("%s/%s" % (cases[n][0], cases[n][1]), set()).add(r // 4)
+    ctx["model_paths"] = {k: len(v) for k, v in sorted(paths.items())}
     return lines, outs, idx, codes, stats
 
 
@@ -146,7 +154,7 @@ def correspond(ctx):
                 "parameter bits, words); non-trivial = constructor accepted and the sample is finite; distinct by (family,type,params,first 4 words)",
         "samples": [lines[0][:300], lines[len(lines) // 2][:300], lines[-1][:300]],
         "mismatches": mismatches, "oracle_failures": [],
-        "extra": {"per_family": per_fam, "case_stats": stats},
+        "extra": {"per_family": per_fam, "case_stats": stats, "distinct_model_paths": ctx.get("model_paths", {})},
     }
 
 
